@@ -191,6 +191,46 @@ void gen_mixed(Plan& p, Rng& r)
         }
     }
 }
+void gen_atomic(Plan& p, Rng& r)
+{
+    p.cfg.on_disk = true;
+    p.cfg.checks = CK_MODEL | CK_DIFF;
+    p.cfg.gf.long_labels = false;
+    p.cfg.gf.empty_labels = false;
+    p.cfg.gf.odd_grids = false;
+    p.cfg.gf.no_path = false;
+    p.cfg.gf.big = r.chance(1, 6);
+    // prefix: a short fault-free history
+    int n = 2 + (int)r.below(7);
+    p.steps.push_back(mk("create_track", r, 0, draw_size(r)));
+    p.steps.push_back(mk("create_root", r, 0, 1));
+    static const char* pre[] = {"create_track", "create_root", "create_sub", "add_track",
+                                "set", "set_parent", "create_sub_after", "update", "remove_from"};
+    std::vector<unsigned> wp = {10, 8, 12, 14, 10, 5, 5, 3, 2};
+    for (int i = 0; i < n; ++i)
+    {
+        size_t k = r.weighted(wp);
+        if (std::string(pre[k]) == "set")
+            p.steps.push_back(track_step(r, draw_size(r)));
+        else
+            p.steps.push_back(mk(pre[k], r, 3, draw_size(r)));
+    }
+    // probe: every public mutating operation
+    static const char* probes[] = {"create_track", "update", "remove_track", "set", "create_root",
+                                   "create_root_after", "create_sub", "create_sub_after", "set_name",
+                                   "set_parent", "remove_crate", "add_track", "remove_from", "clear"};
+    std::vector<unsigned> w = {8, 8, 6, 40, 4, 3, 6, 4, 5, 7, 6, 6, 4, 3};
+    size_t k = r.weighted(w);
+    if (std::string(probes[k]) == "set")
+        p.steps.push_back(track_step(r, draw_size(r)));
+    else
+    {
+        Step s = mk(probes[k], r, 3, draw_size(r));
+        if (s.op == "set_parent" && r.chance(1, 5))
+            s.a[1] = -1;
+        p.steps.push_back(s);
+    }
+}
 }  // namespace
 
 std::vector<std::string> all_profiles()
@@ -232,6 +272,8 @@ Plan generate_plan(const std::string& profile_in, uint64_t seed)
         gen_members(p, r);
     else if (profile == "mixed")
         gen_mixed(p, r);
+    else if (profile == "atomic")
+        gen_atomic(p, r);
     else
         throw std::runtime_error("unknown profile " + profile_in);
     if (disk)
